@@ -137,10 +137,10 @@ func TestC15(t *testing.T) {
 	n := cfg.N(240, 6000)
 	var twins, same int64
 	for i := 0; i < n; i++ {
-		if !cfg.Mine(i) {
+		seed := cfg.CaseSeed("C15", i)
+		if !cfg.Want(i, seed) {
 			continue
 		}
-		seed := cfg.CaseSeed("C15", i)
 		if i%2 == 0 {
 			// (a) + (c): job-heavy history with row-diff checks, then convergence
 			hist.RunHistoryOpt(t, col, "C15", ps[0], seed, func(w *hist.World) { w.CheckJobs = true }, converge)
